@@ -286,6 +286,13 @@ func init() {
 		if err != nil || id >= len(e.addrs) {
 			return TupleV{V: []Value{IfaceV{}, newErr("decoded address is of unknown format")}}
 		}
+		// base58 addresses (p2pkh, p2sh, and the p2pk kind whose string form is the base58
+		// pubkey-hash encoding) carry a network id that btcutil.DecodeAddress matches against
+		// the given network itself (ErrUnknownAddressType otherwise); only the bech32 kinds
+		// come back as an address of another network and are left to IsForNet
+		if ad := e.addrs[id]; !ad.forNet && (ad.kind == 0 || ad.kind == 1 || ad.kind == 5) {
+			return TupleV{V: []Value{IfaceV{}, newErr("unknown address type")}}
+		}
 		return TupleV{V: []Value{e.addrIface(e.addrs[id]), IfaceV{}}}
 	}
 	newAddr := func(kind, n int) Intrinsic {
